@@ -515,7 +515,15 @@ impl<I: Hash + Eq, A: Hash + Eq> Game<I, A> {
                             }
                             compact::Entry::Occupied(ent) => {
                                 let (ind, data) = ent.get();
-                                if *data.probs != *probs {
+                                // NOTE compare with a tolerance as normalizing rescaled weights
+                                // doesn't produce bit identical probabilities
+                                if data.probs.len() != probs.len()
+                                    || data
+                                        .probs
+                                        .iter()
+                                        .zip(probs.iter())
+                                        .any(|(old, new)| (old - new).abs() > 1e-9 * old.max(*new))
+                                {
                                     Err(GameError::ProbabilitiesNotEqual)
                                 } else {
                                     Ok(ind)
